@@ -51,6 +51,13 @@ func checkRules(c ruleCase) string {
 			return fmt.Sprintf("a program that breaks the rule %q compiles\nsql: %s", c.Rule, r.SQL)
 		}
 	}
+	if r.Err == nil {
+		// "fails when the source does not parse": a source whose tokens the
+		// parsed tree does not account for has not been parsed (C08's criterion)
+		if msg, _, _ := checkAccept(src); msg != "" {
+			return fmt.Sprintf("Compile succeeds although the source does not parse as a whole: %s\nsql: %s", msg, r.SQL)
+		}
+	}
 	return ""
 }
 
@@ -377,11 +384,13 @@ func TestC13EitherOr(t *testing.T) {
 	})
 }
 
+var soupTwoStatementContexts = []string{"T | join (U) %s; V", "T | %s; V | count", "let x = 1; T | join kind=sideways (U) %s; V", "T | sort by a %s; let y = 2"}
+
 func TestC13Soups(t *testing.T) {
 	st := harn.NewStats(env, "soups")
 	defer st.Flush()
 	maxLen := env.Pick(4, 5)
-	st.SetExhaustive(fmt.Sprintf("all sequences of <= %d tokens over %q spliced into %q; all sequences of <= %d tokens over %q spliced into %q", maxLen, soupLarge, soupContexts, env.Pick(3, 4), soupOps, soupOpContexts))
+	st.SetExhaustive(fmt.Sprintf("all sequences of <= %d tokens over %q spliced into %q; all sequences of <= %d tokens over %q spliced into %q and into %q", maxLen, soupLarge, soupContexts, env.Pick(3, 4), soupOps, soupOpContexts, soupTwoStatementContexts))
 	failed := false
 	one := func(soup string, contexts []string) {
 		for _, ctx := range contexts {
@@ -400,6 +409,8 @@ func TestC13Soups(t *testing.T) {
 	}
 	enumSoups(soupLarge, maxLen, env.Shard, env.NShards, func(soup string) { one(soup, soupContexts) })
 	enumSoups(soupOps, env.Pick(3, 4), env.Shard, env.NShards, func(soup string) { one(soup, soupOpContexts) })
+	// a broken statement followed by a good one: the error must survive
+	enumSoups(soupOps, env.Pick(3, 4), env.Shard, env.NShards, func(soup string) { one(soup, soupTwoStatementContexts) })
 	st.Sample("soup", "T | where a + ( f , [ ]")
 }
 
